@@ -22,9 +22,9 @@ TARGETS = ['valjean.cosette.run:run', 'valjean.cosette.run:make_cap_paths', 'val
            'valjean.cosette.run:RunTask.from_clis', 'valjean.path:sanitize_filename', 'valjean.path:ensure',
            'valjean.cosette.pythontask:PythonTask.do', 'valjean.cosette.code:CheckoutTask.__init__', 'valjean.cosette.code:BuildTask.__init__', 'valjean.cosette.code:BuildTask.cmake_build_sys']
 BOUNDS = {'quick': {'commands': '<= 3 per task', 'executions': 'each task twice under the same output root', 'exit statuses': 'arbitrary integers (symbolic)', 'start-up failure': 'OSError at any position',
-                    'task names': 'arbitrary strings of any length (z3 string theory)'},
+                    'task names': 'arbitrary strings of any length (z3 string theory); if the implementation passes the name to string-only library code: a pool of 22 awkward concrete names'},
           'thorough': {'commands': '<= 4 per task', 'exit statuses': 'arbitrary integers (symbolic)',
-                       'task names': 'arbitrary strings of any length (z3 string theory)'}}
+                       'task names': 'arbitrary strings of any length (z3 string theory); if the implementation passes the name to string-only library code: a pool of 22 awkward concrete names'}}
 ASSUMPTIONS = ['subprocess.call is a stub: returns a symbolic integer status, or raises OSError (executable cannot be started); it writes one tag '
                'per stream; the real files are created in a temporary directory',
                'the conversion of an exception in do() into FAILED by the worker is decided in C02',
@@ -223,6 +223,9 @@ def _job(n, via_task, timeout_ms, seed=0):
                    require_checks=['DONE-iff-every-command-exited-with-zero'])
 
 
+NAME_POOL = ['', '.', '..', 'a', 'a/b', '/', '/a', 'a/', 'a' + chr(0) + 'b', chr(0), 'a.b', '.a', '..a', 'a..', '...', ' ', 'a b', 'a/..', '../a', '~', '-', 'é']
+
+
 def name_harness(ex):
     """real sanitize_filename on a symbolic task name of ANY length (z3 strings): an accepted name is a
     single non-empty path component, so <output-root>/<name> is a directory of that task only"""
@@ -230,11 +233,33 @@ def name_harness(ex):
     import z3
     name = ex.str('name')
     other = ex.str('other')
+    concrete = None
     try:
         r = sanitize_filename(name)
         ok = True
     except ValueError:
         ok = False
+    except TypeError as e:
+        if not (ex.symbolic and 'SStr' in str(e)):
+            raise
+        # the implementation hands the name to code that only takes real strings (pathlib, os.path ...): the symbolic string cannot
+        # follow.  Decide on a pool of awkward concrete names instead (stated bound of this fallback), tied to the symbolic variable so
+        # that a counterexample replays with that very name
+        concrete = NAME_POOL[ex.choice(len(NAME_POOL), 'concrete-name')]
+        ex.side(name.t == z3.StringVal(concrete))
+        try:
+            r = sanitize_filename(concrete)
+            ok = True
+        except ValueError:
+            ok = False
+    if concrete is not None:
+        single = concrete != '' and '/' not in concrete and chr(0) not in concrete and concrete not in ('.', '..')
+        if ok:
+            ex.check(r == concrete, 'sanitize-returns-the-name-unchanged')
+            ex.check(single, 'accepted-name-is-one-non-empty-path-component')
+        else:
+            ex.check(not single, 'only-unusable-names-are-rejected')
+        return
     if ex.symbolic:
         from engine.symrun.core import SBool, SStr
         single = z3.And(z3.Length(name.t) > 0, z3.Not(z3.Contains(name.t, z3.StringVal('/'))),
